@@ -98,6 +98,18 @@ CHECKS = {
              'numbers of written files vs model; differential write/read over channels x formats x AmpSF x support arrays x non-ASCII text x '
              'write orders x targets. No signal compression. ' + TB,
         technique='Lean 4 proof (omega over alignment arithmetic, induction on retry fuel) + byte-level parser + write/read differential'),
+    'C08': dict(
+        text='Lean 4 theorems: pair (de)interleaving is exactly invertible for any band count and either order; over the reals and for any '
+             'bit depth every stored magnitude/phase pair with non-zero magnitude is a fixed point of decode-then-encode (Complex.arg polar '
+             'form, wrap to [0, 2 pi)), the decoded value has the stored magnitude, and at zero magnitude decoding is provably not injective '
+             '(the format loses the phase: stated, not hidden); for a strictly increasing amplitude table the repaired inverse returns the '
+             'index of an exact table value; the amplitude scale factor inverts exactly and integer samples survive scale/unscale/round. '
+             'The implementation is run exhaustively on all 2^16 byte pairs (MP, PM, amplitude tables) and on a dtype x order x axis matrix.',
+        design='DESIGN.md 6/C08',
+        note='proved over the reals; float rounding of cos/sin/atan2 and numpy casting are covered by the exhaustive 8-bit runs and by sampling '
+             'for 16-bit, not proved. One-step quantisation bounds for arbitrary in-range values are not yet a theorem (fixed points and exact '
+             'inverses are). ' + TB,
+        technique='Lean 4 proof (Mathlib Complex.arg, trig identities) + exhaustive 2^16 differential on the implementation'),
 }
 
 
